@@ -365,4 +365,15 @@ PROPS = {
                 "cli cases": lambda a, t: a.counts.get("cli_cases_compared", 0) >= 20},
         assumptions=["'for all interleavings' is approached by stress, scheduler seeds and race detectors, not enumerated"],
     ),
+    "C15": dict(
+        jobs=lambda tier: [shards("release", 16, None, stall_s=60, cap_mb=320)],
+        eval_keys=["steps"],
+        rule="every registered instruction that takes an INTEGER or FLOAT operand x each operand position x integer probes "
+             "{-MAX,-10^6,-1,0,1,10^3,10^6,10^9,MAX} / float probes {+-1e30,+-inf,NaN,0.5} x 2 settings of the other operands, on a tiny state, one "
+             "supervised step per case: bytes requested in the step vs the bound 1 MiB + 64 x state bytes + 64 x configured limits, CPU time of "
+             "the step (in-process watchdog: 3 s quick / 10 s thorough), abort by the 320 MiB allocation cap; 10 growth programs run under the "
+             "default configuration, after which no CODE/EXEC item may exceed max_points_in_program. distinct = (instruction, operand position:class, setting).",
+        floors={"instructions with size-like operands": lambda a, t: set_n(a, "instructions") >= 130, "steps": lambda a, t: a.counts.get("steps", 0) >= 2500},
+        assumptions=["CPU time, never wall-clock, decides a hang", "allocation accounting by the harness's counting global allocator"],
+    ),
 }
